@@ -30,10 +30,10 @@ class ReadOnly(Harness):
     """The whole monitoring API against one simulated device (entered through connect()/discover()), capability
     flags symbolic: no request other than a read may be logged."""
 
-    def __init__(self, dev, entry):
-        self.dev, self.entry = dev, entry
+    def __init__(self, dev, entry, prelude=False):
+        self.dev, self.entry, self.prelude = dev, entry, prelude
         self.name = "read-only"
-        self.params = {"device": dev, "entry": entry}
+        self.params = {"device": dev, "entry": entry, "prelude": prelude}
 
     def _run(self, M, flag, val, crc):
         fam = self.dev["family"]
@@ -57,6 +57,17 @@ class ReadOnly(Harness):
                 inv = drive(M.pkg.discover("127.0.0.1", 8899, 1, 0))
             else:
                 inv = drive(M.pkg.connect("127.0.0.1", 8899, None, 0, 1, 0, True))
+            if self.prelude:
+                # legitimate writes first (whatever they leave behind must not turn later reads into writes)
+                OM = M.inverter.OperationMode
+                for w_ in (lambda: inv.set_operation_mode(OM.OFF_GRID), lambda: inv.set_grid_export_limit(1),
+                           lambda: inv.set_ongrid_battery_dod(99), lambda: inv.set_operation_mode(OM.ECO_CHARGE, 1, 1),
+                           lambda: inv.write_setting("modbus-47000", 1), lambda: inv.set_operation_mode(OM.GENERAL)):
+                    try:
+                        drive(w_())
+                    except Exception:  # noqa: BLE001
+                        pass
+                w.fake.log.clear()
             calls = [lambda: inv.read_device_info(), lambda: inv.read_runtime_data(), lambda: inv.read_runtime_data(),
                      lambda: inv.read_settings_data(), lambda: inv.get_grid_export_limit(),
                      lambda: inv.get_operation_modes(True), lambda: inv.get_operation_mode(),
@@ -103,7 +114,7 @@ class ReadOnly(Harness):
 
     def concrete(self, inputs):
         R = real()
-        tag = f"{self.dev['label']} via {self.entry}"
+        tag = f"{self.dev['label']} via {self.entry}" + (" after legitimate writes" if self.prelude else "")
         try:
             log, cls = self._run(R, lambda n: bool(inputs.get(f"refuse_{n}", False)), lambda a: inputs.get(f"reg_{a}", 0), None)
         except Exception as e:  # noqa: BLE001
@@ -195,8 +206,9 @@ class Setter(Harness):
 
 def tasks(tier, seed):
     ts = []
-    ro = [(d, e) for d in DEVICES for e in ("connect", "discover", "connect-auto")]
-    ts += [{"name": f"ro-{i}", "fn": "ro", "items": ro[i::9]} for i in range(9) if ro[i::9]]
+    ro = [(d, e, False) for d in DEVICES for e in ("connect", "discover", "connect-auto")]
+    ro += [(d, "connect", True) for d in DEVICES]
+    ts += [{"name": f"ro-{i}", "fn": "ro", "items": ro[i::12]} for i in range(12) if ro[i::12]]
     st = []
     for d in DEVICES:
         for w in ("export", "dod", "eco_charge", "eco_discharge", "unknown_setting"):
@@ -216,8 +228,8 @@ def run_task(task):
         G.orig_bitmap = G.sensor.decode_bitmap
     out = []
     if task["fn"] == "ro":
-        for d, e in task["items"]:
-            out.append(explore(ReadOnly(d, e), max_paths=5000, max_seconds=900, witnesses_per_outcome=1, trace=len(out) < 1))
+        for d, e, pre in task["items"]:
+            out.append(explore(ReadOnly(d, e, pre), max_paths=5000, max_seconds=900, witnesses_per_outcome=1, trace=len(out) < 1))
     else:
         for d, w, v2 in task["items"]:
             out.append(explore(Setter(d, w, v2), max_paths=5000, max_seconds=600, witnesses_per_outcome=1, trace=len(out) < 1))
@@ -227,7 +239,7 @@ def run_task(task):
 def replay(case):
     p = case["params"]
     if case["harness"] == "read-only":
-        return ReadOnly(p["device"], p["entry"]).concrete(case["inputs"])
+        return ReadOnly(p["device"], p["entry"], p.get("prelude", False)).concrete(case["inputs"])
     return Setter(p["device"], p["what"], p.get("eco_v2", True)).concrete(case["inputs"])
 
 
